@@ -29,7 +29,7 @@ FLOORS = {"quick": {"firings_checked": 20000, "calls": 20000, "calls_at_expiry_i
                        "restart_in_callback": 60000, "stop_in_callback": 10000, "scalar_args_cases": 20000,
                        "auto_restart_cases": 30000, "restart_pending": 80000, "restart_after_fired": 10000,
                        "stops": 60000, "suppressed_by_stop": 20000, "old_expiry_voided": 40000}}
-KEYS = tuple(FLOORS["quick"].keys()) + ("falsy_scalar_args_cases",)
+KEYS = tuple(FLOORS["quick"].keys()) + ("falsy_scalar_args_cases", "big_clock_cases", "long_history_cases")
 
 
 def plan(tier):
@@ -79,17 +79,29 @@ def gen_case(rng, i):
             incb[str(n)] = ["restart", rng.choice(taus)]
         elif r < 0.58:
             incb[str(n)] = ["stop"]
-    return {"flavour": flavour, "tau0": tau0, "auto": auto, "t0": t0, "argform": argform, "ctrls": ctrls, "incb": incb,
-            "horizon": 40}
+    case = {"flavour": flavour, "tau0": tau0, "auto": auto, "t0": t0, "argform": argform, "ctrls": ctrls, "incb": incb,
+            "horizon": 40, "env_t0": rng.choice([0, 0, 0, 2 ** 30 if flavour == "exact" else 1.7e9])}
+    if i % 50 == 3:
+        # a long history on ONE timer process: more than a thousand expiries, re-armed by auto-restart or from the
+        # callback, nobody restarting it from outside
+        case.update({"auto": rng.random() < 0.5, "tau0": 0.25 if flavour == "exact" else 0.3, "ctrls": [], "horizon": 420,
+                     "long_history": True, "env_t0": 0})
+        case["incb"] = {} if case["auto"] else {"*": ["restart", case["tau0"]]}
+    return case
 
 
 def run_case(case, stats):
     K = kern.RealK.load()
     from onl.utils import Timer
     Env = kern.make_monenv(K.Environment)
-    env = Env()
+    E0 = case.get("env_t0", 0)
+    env = Env(E0)
     viol = []
     tape = []          # (seq, now, kind, detail)
+    if E0:
+        stats["big_clock_cases"] += 1
+    if case.get("long_history"):
+        stats["long_history_cases"] += 1
 
     def bad(m, what, wit=None):
         if len(viol) < 4:
@@ -141,24 +153,26 @@ def run_case(case, stats):
     def cb(*a, **kw):
         nfire[0] += 1
         tape.append((len(tape), env.now, "fire", a, kw))
-        act = case["incb"].get(str(nfire[0]))
+        act = case["incb"].get(str(nfire[0])) or case["incb"].get("*")
         if act:
             do(act, "cb")
 
     def creator():
         if case["t0"] > 0:
             yield env.timeout(case["t0"])
+        elif E0:
+            yield env.timeout(0)
         tape.append((len(tape), env.now, "create", case["tau0"]))
         holder["timer"] = Timer(env, case["tau0"], cb, auto_restart=case["auto"], args=args, kwargs=kwargs)
         yield env.timeout(0)
 
     def ctrl(acts, k):
         for a in acts:
-            gap = a[0] - env.now
+            gap = E0 + a[0] - env.now
             if gap > 0:
                 if k % 2 and gap > 0.5:
                     yield env.timeout(gap / 2)
-                    gap = a[0] - env.now
+                    gap = E0 + a[0] - env.now
                 if gap > 0:
                     yield env.timeout(gap)
             do(a[1:], f"p{k}")
@@ -166,7 +180,7 @@ def run_case(case, stats):
     env.process(creator())
     for k, acts in enumerate(case["ctrls"]):
         env.process(ctrl(acts, k))
-    H = case["horizon"]
+    H = E0 + case["horizon"]
     try:
         env.run(until=H)
     except Exception as e:
@@ -178,8 +192,11 @@ def run_case(case, stats):
     # ---- reference automaton over the action history
     exact = case["flavour"] == "exact"
 
+    import math
+
     def same(a, b):
-        return a == b if exact else (a == b or abs(a - b) <= 1e-9 * max(1.0, abs(a), abs(b)))
+        # a few units in the last place (a relative tolerance would be blind on large clock values)
+        return a == b if exact else (a == b or abs(a - b) <= 64 * math.ulp(max(abs(a), abs(b), 1.0)))
 
     E = None            # set of admissible pending expiries (None element = "nothing pending")
     stopped = False
